@@ -39,7 +39,8 @@ TRaw(cp)    == [k |-> "raw",  key |-> <<>>,  cp |-> cp,   node |-> NoNode]
 TJson(n)    == [k |-> "json", key |-> <<>>,  cp |-> <<>>, node |-> n]
 \* a spelling: form "py" (mapping given to find_jobs), "json1" (one JSON token on the command line),
 \* "cli" (token list on the command line), "str" (tokens joined by blanks, given to find_jobs)
-Sp(form, node, toks) == [form |-> form, node |-> node, toks |-> toks]
+Sp(form, node, toks) == [form |-> form, node |-> node, toks |-> toks, alt |-> ""]
+\* alt: the kind of non-canonical number token used in a token spelling ("" = canonical tokens)
 
 -----------------------------------------------------------------------------
 (* Cast and Token: filterparse._cast on code point sequences *)
@@ -51,38 +52,65 @@ DigitsVal(s) == IF s = <<>> THEN 0 ELSE 10 * DigitsVal(SubSeq(s, 1, Len(s) - 1))
 Signed(s) == s # <<>> /\ Head(s) \in {43, 45}
 Unsigned(s) == IF Signed(s) THEN Tail(s) ELSE s
 SignOf(s) == IF s # <<>> /\ Head(s) = 45 THEN 0 - 1 ELSE 1
-IsIntLit(s) == IsDigits(Unsigned(s)) /\ Len(Unsigned(s)) <= 6
-DotPos(s) == {i \in 1..Len(s) : s[i] = 46}
-IsFloatLit(s) == LET u == Unsigned(s) IN
-                 /\ Cardinality(DotPos(u)) = 1
-                 /\ LET p == CHOOSE i \in DotPos(u) : TRUE IN
-                    /\ IsDigits(SubSeq(u, 1, p - 1)) /\ IsDigits(SubSeq(u, p + 1, Len(u)))
-                    /\ p - 1 <= 5 /\ Len(u) - p <= 4
+\* CC1 (calibrated rule): after the three keywords, the token grammar is the literal grammar of Python's int() and then
+\* float(), restricted to finite values (inf / infinity / nan are left unspecified and never generated):
+\*   token   ::= ws* [+-] number ws*                       ws: blank, \t \n \v \f \r, \x1c-\x1f
+\*   digits  ::= digit (["_"] digit)*                       (an underscore only between two digits)
+\*   int()   ::= digits                                     (leading zeros allowed: "007" is 7)
+\*   float() ::= (digits ["." [digits]] | "." digits) [(e|E) [+-] digits]
+\* int() is tried first, so "10" is the int 10 and "1e1", "10.", "1_0.0" are the float 10.0.
+WS == {32, 9, 10, 11, 12, 13, 28, 29, 30, 31}
+RECURSIVE TrimL(_)
+TrimL(s) == IF s # <<>> /\ Head(s) \in WS THEN TrimL(Tail(s)) ELSE s
+RECURSIVE TrimR(_)
+TrimR(s) == IF s # <<>> /\ s[Len(s)] \in WS THEN TrimR(SubSeq(s, 1, Len(s) - 1)) ELSE s
+Trim(s) == TrimR(TrimL(s))
+DigitPart(u) == /\ u # <<>> /\ \A i \in 1..Len(u) : u[i] \in (48..57) \cup {95}
+                /\ u[1] # 95 /\ u[Len(u)] # 95 /\ \A i \in 1..(Len(u) - 1) : ~(u[i] = 95 /\ u[i + 1] = 95)
+NoU(u) == SelectSeq(u, LAMBDA c : c # 95)
+Body(s) == Unsigned(Trim(s))                        \* the number without blanks and sign
+IsIntLit(s) == DigitPart(Body(s)) /\ Len(NoU(Body(s))) <= 7
+IntVal(s) == I(SignOf(Trim(s)) * DigitsVal(NoU(Body(s))))
+\* split the body of a float literal into mantissa / exponent and the mantissa into integer / fraction digits
+EPos(u) == {i \in 1..Len(u) : u[i] \in {101, 69}}
+DotPos(u) == {i \in 1..Len(u) : u[i] = 46}
+Mant(u) == IF EPos(u) = {} THEN u ELSE SubSeq(u, 1, (CHOOSE i \in EPos(u) : TRUE) - 1)
+Expo(u) == IF EPos(u) = {} THEN <<>> ELSE SubSeq(u, (CHOOSE i \in EPos(u) : TRUE) + 1, Len(u))
+IntDigits(m) == IF DotPos(m) = {} THEN m ELSE SubSeq(m, 1, (CHOOSE i \in DotPos(m) : TRUE) - 1)
+FracDigits(m) == IF DotPos(m) = {} THEN <<>> ELSE SubSeq(m, (CHOOSE i \in DotPos(m) : TRUE) + 1, Len(m))
+IsFloatLit(s) ==
+  LET u == Body(s)  m == Mant(u)  e == Expo(u)  ip == IntDigits(m)  fp == FracDigits(m) IN
+  /\ Cardinality(EPos(u)) <= 1 /\ Cardinality(DotPos(m)) <= 1 /\ DotPos(e) = {}
+  /\ (EPos(u) # {} => DigitPart(Unsigned(e)))
+  /\ \/ DigitPart(ip) /\ (fp = <<>> \/ DigitPart(fp))
+     \/ ip = <<>> /\ DotPos(m) # {} /\ DigitPart(fp)
+  /\ Len(NoU(ip)) + Len(NoU(fp)) <= 6 /\ Len(NoU(Unsigned(e))) <= 1          \* bounds of the model (32-bit integers)
+  /\ LET sh == SignOf(e) * DigitsVal(NoU(Unsigned(e))) - Len(NoU(fp)) IN sh >= 0 - 6 /\ sh <= 3
 RECURSIVE Gcd(_, _)
 Gcd(a, b) == IF b = 0 THEN a ELSE Gcd(b, a % b)
 Pow10(k) == 10 ^ k
-FloatVal(s) == LET u == Unsigned(s)
-                   p == CHOOSE i \in DotPos(u) : TRUE
-                   fr == SubSeq(u, p + 1, Len(u))
-                   num == DigitsVal(SubSeq(u, 1, p - 1)) * Pow10(Len(fr)) + DigitsVal(fr)
-                   den == Pow10(Len(fr))
-                   g == Gcd(num, den)
-               IN IF num = 0 THEN F(0, 1) ELSE F(SignOf(s) * (num \div g), den \div g)
-\* anything Python's int()/float() might accept beyond the two strict grammars above: digits, sign, ".", "_", e/E,
-\* blanks, inf / infinity / nan.  For such tokens Cast is deliberately left unspecified (they are never generated).
+FloatVal(s) ==
+  LET u == Body(s)  m == Mant(u)  e == Expo(u)  ip == NoU(IntDigits(m))  fp == NoU(FracDigits(m))
+      mant == DigitsVal(ip \o fp)
+      sh == SignOf(e) * DigitsVal(NoU(Unsigned(e))) - Len(fp)                \* value = mant * 10^sh
+      num == IF sh >= 0 THEN mant * Pow10(sh) ELSE mant
+      den == IF sh >= 0 THEN 1 ELSE Pow10(0 - sh)
+      g == Gcd(num, den)
+  IN IF num = 0 THEN F(0, 1) ELSE F(SignOf(Trim(s)) * (num \div g), den \div g)
+\* anything int()/float() might accept beyond the grammar and bounds above: digits, sign, ".", "_", e/E, white space,
+\* inf / infinity / nan.  For such tokens Cast is deliberately left unspecified (they are never generated).
 Lower(c) == IF c \in 65..90 THEN c + 32 ELSE c
 LowerSeq(s) == [i \in 1..Len(s) |-> Lower(s[i])]
 NumberLike(s) ==
-  \/ s # <<>> /\ (\A i \in 1..Len(s) : s[i] \in (48..57) \cup {43, 45, 46, 95, 101, 69, 32, 9, 10})
+  \/ s # <<>> /\ (\A i \in 1..Len(s) : s[i] \in (48..57) \cup {43, 45, 46, 95, 101, 69} \cup WS)
               /\ (\E i \in 1..Len(s) : s[i] \in 48..57)
-  \/ LowerSeq(SelectSeq(Unsigned(s), LAMBDA c : c \notin {32, 9, 10})) \in
-       {<<105, 110, 102>>, <<105, 110, 102, 105, 110, 105, 116, 121>>, <<110, 97, 110>>}
+  \/ LowerSeq(Body(s)) \in {<<105, 110, 102>>, <<105, 110, 102, 105, 110, 105, 116, 121>>, <<110, 97, 110>>}
 CastDefined(s) == s \in {cTrue, cFalse, cNull} \/ IsIntLit(s) \/ IsFloatLit(s) \/ ~NumberLike(s)
 Cast(s) ==     \* the order of the cases is the order of the try-blocks in _cast
   CASE s = cTrue  -> B(TRUE)
     [] s = cFalse -> B(FALSE)
     [] s = cNull  -> Null
-    [] IsIntLit(s) -> I(SignOf(s) * DigitsVal(Unsigned(s)))
+    [] IsIntLit(s) -> IntVal(s)
     [] IsFloatLit(s) -> FloatVal(s)
     [] OTHER -> S(s)
 
@@ -108,6 +136,38 @@ CliSimple(v) ==
   \/ v.t = "flt" /\ IsFloatLit(FloatText(v))
   \/ v.t = "str" /\ v.s # <<>> /\ CastDefined(v.s) /\ Cast(v.s) = S(v.s) /\ ~JsonLike(v.s) /\ ~RegexLike(v.s) /\ v.s # cBang
 HasBlank(s) == \E i \in 1..Len(s) : s[i] \in {32, 9, 10, 11, 12, 13}
+
+\* non-canonical spellings of a number that int() / float() read as the same value (CC1): a leading "+", leading (and
+\* trailing) zeros, a trailing or leading dot, a digit-group underscore, exponent forms, surrounding blanks.
+\* <<>> where the kind does not apply to the value.
+AltKinds == {"plus", "zeros", "dotend", "dotstart", "under", "exp", "EXP", "blank"}
+AltToken(v, kind) ==
+  LET a == IAbs(v.n)
+      sg == IF v.n < 0 THEN <<45>> ELSE <<>>
+      ip == NatText(a \div v.d)
+      fr == IF v.t = "flt" THEN FracText(a % v.d, v.d) ELSE <<>>
+      frz == IF fr = <<>> THEN <<48>> ELSE fr
+      under(t) == <<t[1], 95>> \o Tail(t)
+  IN IF v.t = "int" THEN
+       CASE kind = "plus"  -> IF v.n >= 0 THEN <<43>> \o ip ELSE <<>>
+         [] kind = "zeros" -> sg \o <<48, 48>> \o ip                                        \* 007
+         [] kind = "under" -> IF Len(ip) >= 2 THEN sg \o under(ip) ELSE <<>>                \* 1_0  1_000
+         [] kind = "blank" -> <<32>> \o sg \o ip \o <<32>>
+         [] OTHER -> <<>>
+     ELSE IF v.t = "flt" THEN
+       CASE kind = "plus"  -> IF v.n >= 0 THEN <<43>> \o ip \o <<46>> \o frz ELSE <<>>
+         [] kind = "zeros" -> sg \o <<48>> \o ip \o <<46>> \o frz \o <<48>>                 \* 01.50
+         [] kind = "dotend" -> IF fr = <<>> THEN sg \o ip \o <<46>> ELSE <<>>               \* 5.
+         [] kind = "dotstart" -> IF a \div v.d = 0 THEN sg \o <<46>> \o frz ELSE <<>>       \* .5  -.5
+         [] kind = "under" -> IF Len(ip) >= 2 THEN sg \o under(ip) \o <<46>> \o frz
+                              ELSE IF Len(frz) >= 2 THEN sg \o ip \o <<46>> \o under(frz) ELSE <<>>
+         [] kind = "exp"   -> sg \o NatText(DigitsVal(ip \o frz)) \o <<101, 45>> \o NatText(Len(frz))   \* 25e-1  5e-1
+         [] kind = "EXP"   -> IF fr = <<>> THEN sg \o ip \o <<69, 48>> ELSE sg \o ip \o <<46>> \o frz \o <<69, 48>>   \* 1E0  2.5E0
+         [] kind = "blank" -> <<32>> \o sg \o ip \o <<46>> \o frz \o <<32>>
+         [] OTHER -> <<>>
+     ELSE <<>>
+\* the value token in variant `kind` ("canon": Token(v))
+TokenV(v, kind) == IF kind # "canon" /\ AltToken(v, kind) # <<>> THEN AltToken(v, kind) ELSE Token(v)
 
 -----------------------------------------------------------------------------
 (* rendering an abstract filter in a style *)
@@ -154,7 +214,7 @@ NoBlankValue(v) == CASE v.t = "str" -> ~HasBlank(v.s)
                      [] OTHER -> TRUE
 StringsOK(f) == IF f.tag = "atom" THEN NoBlankValue(f.arg) ELSE \A i \in 1..Len(f.kids) : StringsOK(f.kids[i])
 \* tokens of one conjunct; <<>> when it cannot be written in this style
-ConjTokens(g, sts, last) ==
+ConjTokensV(g, sts, last, kind) ==
   LET st == sts[1] IN
   IF g.tag = "atom" THEN
     LET kc == KeyComps(g, st) IN
@@ -162,15 +222,17 @@ ConjTokens(g, sts, last) ==
     ELSE IF g.op = "$exists" /\ g.arg = B(TRUE) THEN
          IF last /\ st.kf = "dot" THEN <<TKey(kc)>> ELSE <<TKey(kc), TRaw(cBang)>>                \* a lone key, or "key !"
     ELSE IF g.op = "$regex" /\ g.arg.t = "str" THEN <<TKey(kc), TRaw(<<47>> \o g.arg.s \o <<47>>)>>  \* k /re/
-    ELSE IF CliSimple(g.arg) THEN <<TKey(AtomKey(g, st)), TRaw(Token(g.arg))>>                   \* k v   k.$op v
+    ELSE IF CliSimple(g.arg) THEN <<TKey(AtomKey(g, st)), TRaw(TokenV(g.arg, kind))>>            \* k v   k.$op v
     ELSE IF g.arg.t = "list" THEN <<TKey(AtomKey(g, st)), TJson(CLit(g.arg))>>                   \* k '[1, 2]'
     ELSE <<>>
   ELSE IF g.tag = "all" THEN <<>>
   ELSE LET e == ConjEnt(g, sts) IN <<TKey(e.key), TJson(e.items[1])>>
-CliTokens(f, sts) ==
+ConjTokens(g, sts, last) == ConjTokensV(g, sts, last, "canon")
+CliTokensV(f, sts, kind) ==
   LET cs == IF f.tag = "all" THEN <<>> ELSE Conjuncts(f)
-      tk == [i \in 1..Len(cs) |-> ConjTokens(cs[i], Rot(sts, i - 1), i = Len(cs))]
+      tk == [i \in 1..Len(cs) |-> ConjTokensV(cs[i], Rot(sts, i - 1), i = Len(cs), kind)]
   IN IF \E i \in 1..Len(cs) : tk[i] = <<>> THEN <<>> ELSE FlattenSeq(tk)
+CliTokens(f, sts) == CliTokensV(f, sts, "canon")
 CliExpressible(f, sts) ==
   LET cs == Conjuncts(f) IN
   /\ f.tag # "all"
@@ -181,14 +243,19 @@ StyleSeqs == {<<st>> : st \in Styles} \cup
              {<<[kf |-> "dot", pfx |-> TRUE, opf |-> "nest"], [kf |-> "nest", pfx |-> FALSE, opf |-> "suffix"]>>,
               <<[kf |-> "half", pfx |-> FALSE, opf |-> "suffix"], [kf |-> "dot", pfx |-> FALSE, opf |-> "nest"], [kf |-> "nest", pfx |-> TRUE, opf |-> "nest"]>>}
 Canonical == <<[kf |-> "dot", pfx |-> TRUE, opf |-> "nest"]>>
+AltStyleSeqs == {<<[kf |-> "dot", pfx |-> FALSE, opf |-> "suffix"]>>, <<[kf |-> "nest", pfx |-> TRUE, opf |-> "suffix"]>>}
+NoBlankTok(toks) == \A i \in 1..Len(toks) : toks[i].k = "raw" => ~HasBlank(toks[i].cp)
 Spellings(f) ==
   LET py   == {Sp("py", SpellF(f, sts), <<>>) : sts \in StyleSeqs}
       mrg  == {Sp("py", Merged(f, sts), <<>>) : sts \in {x \in StyleSeqs : x[1].kf = "dot" /\ Mergeable(f, x)}}
       j1   == {Sp("json1", s.node, <<>>) : s \in {x \in mrg \cup {Sp("py", SpellF(f, sts), <<>>) : sts \in StyleSeqs \ {<<st>> : st \in Styles}}
                                                        \cup {Sp("py", SpellF(f, Canonical), <<>>)} : x.node.items # <<>>}}     \* R5
       cli  == {Sp("cli", CMap(<<>>), CliTokens(f, sts)) : sts \in {x \in StyleSeqs : CliExpressible(f, x)}}         \* R4
-      str  == IF StringsOK(f) THEN {Sp("str", CMap(<<>>), s.toks) : s \in cli} ELSE {}                              \* R7
-  IN py \cup mrg \cup j1 \cup cli \cup str
+      \* R4 with every plain number token replaced by a non-canonical spelling of the same number (CC1)
+      alt  == {[Sp("cli", CMap(<<>>), CliTokensV(f, p[1], p[2])) EXCEPT !.alt = p[2]] :
+                 p \in {q \in AltStyleSeqs \X AltKinds : CliExpressible(f, q[1]) /\ CliTokensV(f, q[1], q[2]) # CliTokens(f, q[1])}}
+      str  == IF StringsOK(f) THEN {[s EXCEPT !.form = "str"] : s \in {x \in cli \cup alt : NoBlankTok(x.toks)}} ELSE {}  \* R7
+  IN py \cup mrg \cup j1 \cup cli \cup alt \cup str
 
 -----------------------------------------------------------------------------
 (* the front ends *)
@@ -254,8 +321,13 @@ SameFilter(f, g) == NF(f) = NF(g)
 
 -----------------------------------------------------------------------------
 (* cases: one filter per initial state (reusing Query's variables: corpus = <<>>, stack = <<f>>) *)
+\* atoms whose numbers have interesting non-canonical spellings: 10 (1_0), 1000 (1_000), 7 (007), 5.0 (5.), 0.5 (.5 5e-1),
+\* -0.5 (-.5), 0.25 (0.2_5), 12.5 (1_2.5)
+NumberAtoms == {At(PA, "eq", I(10)), At(PA, "eq", I(1000)), At(PA, "eq", I(7)), At(PA, "eq", F(5, 1)), At(PA, "eq", F(1, 2)),
+                At(PA, "eq", F(0 - 1, 2)), At(PA, "$ne", F(1, 4)), At(PDX, "$gte", F(25, 2)), At(PNX, "$lt", I(10)),
+                And(<<At(PA, "$gt", F(1, 2)), At(PDX, "eq", I(10))>>), At(PA, "eq", I(0 - 2))}
 SFilters == IF MODE = "file" THEN Filters ELSE IF MODE # "spell" THEN <<>>
-            ELSE SetToSeq(FiltersD1 \cup RandomSubset(NSPELL, FiltersD2 \cup FiltersD3))
+            ELSE SetToSeq(FiltersD1 \cup NumberAtoms \cup RandomSubset(NSPELL, FiltersD2 \cup FiltersD3))
 SpellInit == \E fi \in 1..Len(SFilters) : corpus = <<>> /\ stack = <<SFilters[fi]>>
 SpellNext == UNCHANGED vars
 
@@ -266,6 +338,16 @@ RECURSIVE ArgsOf(_)
 ArgsOf(f) == IF f.tag = "atom" THEN {f.arg} \cup (IF f.arg.t = "list" THEN {f.arg.l[i] : i \in 1..Len(f.arg.l)} ELSE {})
              ELSE UNION {ArgsOf(f.kids[i]) : i \in 1..Len(f.kids)}
 CastRoundTrip == \A v \in ArgsOf(Top) : CliSimple(v) => (CastDefined(Token(v)) /\ JEq(Cast(Token(v)), v))
+\* every non-canonical number token reads as the same number, and is a different text than the canonical token
+CastAltTokens == \A v \in {x \in ArgsOf(Top) : x.t \in {"int", "flt"}} : \A k \in AltKinds :
+                   LET t == AltToken(v, k) IN t # <<>> => (t # Token(v) /\ CastDefined(t) /\ JEq(Cast(t), v))
+CastGrammar ==   \* CC1 on literal examples:  .5  -.5  +1  5.  007  1_000  1E3  5e-1  " 1 "  1_0.5 ; rejected forms stay strings
+  /\ Cast(<<46, 53>>) = F(1, 2) /\ Cast(<<45, 46, 53>>) = F(0 - 1, 2) /\ Cast(<<43, 49>>) = I(1) /\ Cast(<<53, 46>>) = F(5, 1)
+  /\ Cast(<<48, 48, 55>>) = I(7) /\ Cast(<<49, 95, 48, 48, 48>>) = I(1000) /\ Cast(<<49, 69, 51>>) = F(1000, 1)
+  /\ Cast(<<53, 101, 45, 49>>) = F(1, 2) /\ Cast(<<32, 49, 32>>) = I(1) /\ Cast(<<49, 95, 48, 46, 53>>) = F(21, 2)
+  /\ Cast(<<49, 95>>) = S(<<49, 95>>) /\ Cast(<<95, 49>>) = S(<<95, 49>>) /\ Cast(<<49, 95, 95, 48>>) = S(<<49, 95, 95, 48>>)
+  /\ Cast(<<46>>) = S(<<46>>) /\ Cast(<<49, 101>>) = S(<<49, 101>>) /\ Cast(<<43, 32, 49>>) = S(<<43, 32, 49>>) /\ Cast(<<49, 46, 95, 53>>) = S(<<49, 46, 95, 53>>)
+  /\ ~CastDefined(<<105, 110, 102>>) /\ ~CastDefined(<<45, 73, 110, 102, 105, 110, 105, 116, 121>>) /\ ~CastDefined(<<110, 97, 110>>)
 CastOrder ==   \* literal tokens: keyword before int before float before str
   /\ Cast(<<49>>) = I(1) /\ Cast(<<49, 46, 48>>) = F(1, 1) /\ Cast(<<45, 50, 46, 53>>) = F(0 - 5, 2)
   /\ Cast(cTrue) = B(TRUE) /\ Cast(<<84, 114, 117, 101>>) = S(<<84, 114, 117, 101>>) /\ Cast(<<49, 97>>) = S(<<49, 97>>)
@@ -276,7 +358,7 @@ SpellLine(fi) ==
   LET f == SFilters[fi]  ss == SetToSeq(Spellings(f)) IN
   [fi |-> fi, filter |-> f,
    spellings |-> [i \in 1..Len(ss) |->
-      [form |-> ss[i].form, node |-> ss[i].node, toks |-> ss[i].toks,
+      [form |-> ss[i].form, node |-> ss[i].node, toks |-> ss[i].toks, alt |-> ss[i].alt,
        parsed |-> IF ss[i].form \in {"cli", "str"} THEN ParseTokens(ss[i].toks) ELSE ss[i].node]]]
 SpellExport ==
   /\ TLCGet("level") >= 0
